@@ -4,6 +4,27 @@ let txin_of j = { ti_hash = jbytes (jfield j "hash"); ti_index = jn (jfield j "i
 let txout_of j = { to_amount = jn (jfield j "amount"); to_script = jbytes (jfield j "script") }
 let tx_of j = { tx_version = jn (jfield j "version"); tx_ins = SL.map txin_of (jlist (jfield j "ins"));
                 tx_outs = SL.map txout_of (jlist (jfield j "outs")); tx_locktime = jn (jfield j "locktime") }
+let o_sha = oracle1 "sha256"
+let o_sign = oracle2 "sign"
+let opt_bytes j = match j with JNull -> None | _ -> Some (jbytes j)
+let of_opt_bytes o = match o with None -> JNull | Some b -> of_bytes b
+let sobj_of j = { o_legacy = opt_bytes (jfield j "legacy"); o_sig = opt_bytes (jfield j "sig");
+                  o_ch = jbytes (jfield j "ch"); o_msg = jbytes (jfield j "msg") }
+let oop_of j = match jstr (jfield j "op") with
+  | "sign" -> OSign (jbytes (jfield j "sk"), jbytes (jfield j "ch"))
+  | "clear" -> OClear
+  | "edit" -> OEdit (jbytes (jfield j "m"))
+  | "reread" -> OReread
+  | s -> raise (Model_error ("unknown op " ^ s))
+let of_sobj fo addr o = JObj [ "legacy", of_opt_bytes o.o_legacy; "sig", of_opt_bytes o.o_sig; "ch", of_bytes o.o_ch;
+                               "msg", of_bytes o.o_msg; "pieces", of_bytes (obj_pieces fo addr o) ]
+let obj_run req =
+  let fo = outpoint_bytes (jbytes (jfield req "txhash")) (jn (jfield req "pos")) in
+  let addr = jbytes (jfield req "addr") in
+  let rec go o ops acc = match ops with
+    | [] -> Stdlib.List.rev acc
+    | op :: r -> let o' = ostep o_sha o_sign fo o op in go o' r (of_sobj fo addr o' :: acc) in
+  JArr (go (sobj_of (jfield req "start")) (SL.map oop_of (jlist (jfield req "ops"))) [])
 let () = serve (fun fn req ->
   match fn with
   | "preimage" -> of_bytes (sighash_preimage (tx_of (jfield req "tx")) (jnat (jfield req "i")) (jbytes (jfield req "script")))
@@ -11,5 +32,6 @@ let () = serve (fun fn req ->
   | "serialize" -> of_bytes (serialize (tx_of (jfield req "tx")))
   | "channel_pieces" -> of_bytes (channel_pieces (outpoint_bytes (jbytes (jfield req "txhash")) (jn (jfield req "pos")))
                                     (jbytes (jfield req "channel")) (jbytes (jfield req "message")))
+  | "obj_run" -> obj_run req
   | "legacy_pieces" -> of_bytes (legacy_pieces (jbytes (jfield req "address")) (jbytes (jfield req "payload")) (jbytes (jfield req "channel")))
   | _ -> raise (Model_error ("unknown fn " ^ fn)))
